@@ -121,6 +121,16 @@ pub fn s<'a>(req: &'a Value, k: &str) -> &'a str {
     req.get(k).and_then(|x| x.as_str()).unwrap_or("")
 }
 
+/// A path parameter. "hex:<hex bytes>" stands for a path that is not valid UTF-8 (JSON strings cannot carry one).
+pub fn pth(req: &Value, k: &str) -> PathBuf {
+    let v = s(req, k);
+    if let Some(h) = v.strip_prefix("hex:") {
+        use std::os::unix::ffi::OsStringExt;
+        return PathBuf::from(std::ffi::OsString::from_vec(hex_dec(h)));
+    }
+    PathBuf::from(v)
+}
+
 pub fn has(req: &Value, k: &str) -> bool {
     req.get(k).map(|x| !x.is_null()).unwrap_or(false)
 }
@@ -260,7 +270,7 @@ pub fn stray_files(cache: &Path) -> Vec<String> {
 }
 
 pub fn tmp_quiesce(req: &Value) -> R {
-    let cache = PathBuf::from(s(req, "cache"));
+    let cache = pth(req, "cache");
     let timeout_ms = req.get("timeout_ms").and_then(|x| x.as_u64()).unwrap_or(10_000);
     let t0 = std::time::Instant::now();
     let mut polls = 0u64;
@@ -280,7 +290,8 @@ pub fn tmp_quiesce(req: &Value) -> R {
 // ---------------------------------------------------------------- sync ops
 
 fn sync_writer(req: &Value) -> R {
-    let cache = s(req, "cache");
+    let cache_pb = pth(req, "cache");
+    let cache = cache_pb.as_path();
     let opts_v = req.get("opts");
     let chunks = chunks_of(req);
     let flush_after = usize_list(req, "flush_after");
@@ -353,7 +364,8 @@ pub fn no_handle(wid: &str) -> Value {
 
 fn sync_handle(req: &Value) -> R {
     let wid = s(req, "wid").to_string();
-    let cache = s(req, "cache");
+    let cache_pb = pth(req, "cache");
+    let cache = cache_pb.as_path();
     match s(req, "op") {
         "wh_open" => {
             let opts_v = req.get("opts");
@@ -427,7 +439,8 @@ pub fn pause_before_commit(req: &Value) {
 }
 
 fn sync_reader(req: &Value) -> R {
-    let cache = s(req, "cache");
+    let cache_pb = pth(req, "cache");
+    let cache = cache_pb.as_path();
     let mut r = if has(req, "key") {
         cacache::SyncReader::open(cache, s(req, "key"))
     } else {
@@ -441,7 +454,14 @@ fn sync_reader(req: &Value) -> R {
     let mut out = Vec::new();
     let mut i = 0usize;
     let mut reads = 0u64;
+    // "to_end_after": k  =>  k plain reads, then the rest through read_to_end (a different calling pattern: the
+    // standard library / runtime hands the reader a partly filled buffer)
+    let to_end_after = req.get("to_end_after").and_then(|x| x.as_u64());
     loop {
+        if to_end_after == Some(reads) {
+            r.read_to_end(&mut out).map_err(|e| staged(ioerr_json(&e), "read_to_end"))?;
+            break;
+        }
         let sz = bufs[i % bufs.len()];
         i += 1;
         let mut b = vec![0u8; sz];
@@ -462,8 +482,10 @@ fn sync_reader(req: &Value) -> R {
 }
 
 fn sync_linker(req: &Value) -> R {
-    let cache = s(req, "cache");
-    let target = s(req, "target");
+    let cache_pb = pth(req, "cache");
+    let cache = cache_pb.as_path();
+    let target_pb = pth(req, "target");
+    let target = target_pb.as_path();
     let via = if has(req, "via") { s(req, "via") } else { "fn" };
     let keyed = has(req, "key");
     if via == "fn" {
@@ -494,6 +516,9 @@ fn sync_linker(req: &Value) -> R {
         let n = l.read(&mut b).map_err(|e| staged(ioerr_json(&e), "read"))?;
         got.extend_from_slice(&b[..n]);
     }
+    if req.get("then_to_end").and_then(|x| x.as_bool()).unwrap_or(false) {
+        l.read_to_end(&mut got).map_err(|e| staged(ioerr_json(&e), "read_to_end"))?;
+    }
     if s(req, "final") == "drop" {
         drop(l);
         return Ok(json!({"dropped":true,"read":put_data(&got)}));
@@ -502,7 +527,7 @@ fn sync_linker(req: &Value) -> R {
     Ok(json!({"sri":sri.to_string(),"read":put_data(&got)}))
 }
 
-pub fn list_json(cache: &str) -> Value {
+pub fn list_json(cache: &Path) -> Value {
     let mut items = Vec::new();
     for it in cacache::list_sync(cache) {
         match it {
@@ -515,7 +540,8 @@ pub fn list_json(cache: &str) -> Value {
 
 pub fn exec_sync(req: &Value) -> R {
     let op = s(req, "op");
-    let cache = s(req, "cache");
+    let cache_pb = pth(req, "cache");
+    let cache = cache_pb.as_path();
     let ce = |e: cacache::Error| err_json(&e);
     match op {
         "write" => {
@@ -545,45 +571,45 @@ pub fn exec_sync(req: &Value) -> R {
             .map(|d| json!({"data":put_data(&d)}))
             .map_err(ce),
         "reader" => sync_reader(req),
-        "copy" => cacache::copy_sync(cache, s(req, "key"), s(req, "to"))
+        "copy" => cacache::copy_sync(cache, s(req, "key"), pth(req, "to"))
             .map(|n| json!({"n":n}))
             .map_err(ce),
-        "copy_hash" => cacache::copy_hash_sync(cache, &sri_of(req, "sri")?, s(req, "to"))
+        "copy_hash" => cacache::copy_hash_sync(cache, &sri_of(req, "sri")?, pth(req, "to"))
             .map(|n| json!({"n":n}))
             .map_err(ce),
-        "copy_unchecked" => cacache::copy_unchecked_sync(cache, s(req, "key"), s(req, "to"))
+        "copy_unchecked" => cacache::copy_unchecked_sync(cache, s(req, "key"), pth(req, "to"))
             .map(|n| json!({"n":n}))
             .map_err(ce),
         "copy_hash_unchecked" => {
-            cacache::copy_hash_unchecked_sync(cache, &sri_of(req, "sri")?, s(req, "to"))
+            cacache::copy_hash_unchecked_sync(cache, &sri_of(req, "sri")?, pth(req, "to"))
                 .map(|n| json!({"n":n}))
                 .map_err(ce)
         }
-        "hard_link" => cacache::hard_link_sync(cache, s(req, "key"), s(req, "to"))
+        "hard_link" => cacache::hard_link_sync(cache, s(req, "key"), pth(req, "to"))
             .map(|_| json!({}))
             .map_err(ce),
-        "hard_link_hash" => cacache::hard_link_hash_sync(cache, &sri_of(req, "sri")?, s(req, "to"))
+        "hard_link_hash" => cacache::hard_link_hash_sync(cache, &sri_of(req, "sri")?, pth(req, "to"))
             .map(|_| json!({}))
             .map_err(ce),
-        "hard_link_unchecked" => cacache::hard_link_unchecked_sync(cache, s(req, "key"), s(req, "to"))
+        "hard_link_unchecked" => cacache::hard_link_unchecked_sync(cache, s(req, "key"), pth(req, "to"))
             .map(|_| json!({}))
             .map_err(ce),
         "hard_link_hash_unchecked" => {
-            cacache::hard_link_hash_unchecked_sync(cache, &sri_of(req, "sri")?, s(req, "to"))
+            cacache::hard_link_hash_unchecked_sync(cache, &sri_of(req, "sri")?, pth(req, "to"))
                 .map(|_| json!({}))
                 .map_err(ce)
         }
-        "reflink" => cacache::reflink_sync(cache, s(req, "key"), s(req, "to"))
+        "reflink" => cacache::reflink_sync(cache, s(req, "key"), pth(req, "to"))
             .map(|_| json!({}))
             .map_err(ce),
-        "reflink_hash" => cacache::reflink_hash_sync(cache, &sri_of(req, "sri")?, s(req, "to"))
+        "reflink_hash" => cacache::reflink_hash_sync(cache, &sri_of(req, "sri")?, pth(req, "to"))
             .map(|_| json!({}))
             .map_err(ce),
-        "reflink_unchecked" => cacache::reflink_unchecked_sync(cache, s(req, "key"), s(req, "to"))
+        "reflink_unchecked" => cacache::reflink_unchecked_sync(cache, s(req, "key"), pth(req, "to"))
             .map(|_| json!({}))
             .map_err(ce),
         "reflink_hash_unchecked" => {
-            cacache::reflink_hash_unchecked_sync(cache, &sri_of(req, "sri")?, s(req, "to"))
+            cacache::reflink_hash_unchecked_sync(cache, &sri_of(req, "sri")?, pth(req, "to"))
                 .map(|_| json!({}))
                 .map_err(ce)
         }
@@ -596,7 +622,7 @@ pub fn exec_sync(req: &Value) -> R {
                 Ok(json!({"items": list_json(cache)}))
             } else {
                 let mut items = Vec::new();
-                for it in cacache::index::ls(Path::new(cache)) {
+                for it in cacache::index::ls(cache) {
                     match it {
                         Ok(m) => items.push(meta_json(&m)),
                         Err(e) => items.push(json!({"err":err_json(&e)})),
@@ -620,13 +646,13 @@ pub fn exec_sync(req: &Value) -> R {
             .map(|_| json!({}))
             .map_err(ce),
         "clear" => cacache::clear_sync(cache).map(|_| json!({})).map_err(ce),
-        "index_insert" => cacache::index::insert(Path::new(cache), s(req, "key"), build_opts(req.get("opts")))
+        "index_insert" => cacache::index::insert(cache, s(req, "key"), build_opts(req.get("opts")))
             .map(|i| json!({"sri":i.to_string()}))
             .map_err(ce),
-        "index_find" => cacache::index::find(Path::new(cache), s(req, "key"))
+        "index_find" => cacache::index::find(cache, s(req, "key"))
             .map(|m| json!({"entry": m.as_ref().map(meta_json)}))
             .map_err(ce),
-        "index_delete" => cacache::index::delete(Path::new(cache), s(req, "key"))
+        "index_delete" => cacache::index::delete(cache, s(req, "key"))
             .map(|_| json!({}))
             .map_err(ce),
         "link_to" | "linker" => sync_linker(req),
@@ -650,7 +676,7 @@ fn harness_op(req: &Value) -> Option<R> {
                 .map_err(|e| ioerr_json(&e)),
         ),
         "tmp_quiesce" => Some(tmp_quiesce(req)),
-        "stray" => Some(Ok(json!({"left": stray_files(Path::new(s(req, "cache")))}))),
+        "stray" => Some(Ok(json!({"left": stray_files(&pth(req, "cache"))}))),
         "sleep" => {
             std::thread::sleep(std::time::Duration::from_millis(
                 req.get("ms").and_then(|x| x.as_u64()).unwrap_or(1),
